@@ -62,7 +62,7 @@ TRUSTED = ['modelled, not verified: numpy.broadcast on object arrays, openpyxl A
 REQUIRED_BUCKETS = ['op:scalar-scalar', 'op:scalar-array', 'op:same-shape', 'op:single-row', 'op:single-col',
                     'op:row-col', 'op:incompatible', 'fn:scalars', 'fn:array+scalar', 'fn:equal-shapes',
                     'fn:unequal-shapes', 'fn:oracle-only', 'fit', 'wb:val', 'wb:op', 'wb:fn', 'wb:1x1',
-                    'op:big', 'op:twins', 'op:pow', 'op:large', 'fn:large', 'wb:large', 'fn:twins', 'wb:chain0', 'wb:chain1', 'wb:chain2', 'wb:chain3',
+                    'op:big', 'op:twins', 'op:pow', 'op:large', 'fn:large', 'wb:large', 'wb:hostile-text', 'fn:twins', 'wb:chain0', 'wb:chain1', 'wb:chain2', 'wb:chain3',
                     'wb:chain2:set_value', 'wb:chain3:set_value']
 EXHAUSTIVE = False
 EXPLANATION = ('Shapes are enumerated exhaustively up to 4×4 (operands, results and targets); element values are '
@@ -194,7 +194,7 @@ def const_text(tok):
     if isinstance(v, bool):
         return 'TRUE' if v else 'FALSE'
     if isinstance(v, str):
-        return v if v in core.ERR_TAGS else '"%s"' % v
+        return v if v in core.ERR_TAGS else '"' + v.replace('"', '""') + '"'
     return str(v)
 
 
@@ -256,6 +256,11 @@ def formula_of(form, mode='range'):
                     cells[f'{col(col_idx(anchor) + j)}{i + 1}'] = pyval(tok)
         else:
             cells[ref] = pyval(o)
+    if t == 'op' and form.get('rlit') and len(refs) == 2:
+        # the right operand is written INTO the formula text: a text literal, or a number as a percentage
+        v = pyval(form['R'])
+        refs[1] = ('%g%%' % (v * 100)) if form['rlit'] == 'pct' else const_text(form['R'])
+        cells.pop(block_ref(anchors_for(opnds)[0][1], form['R']), None)
     if t == 'val':
         f = '=' + refs[0]
     elif t == 'op':
@@ -471,6 +476,33 @@ def cases(tier, rng):
                 'R': draw(rng, rng.choice([None, shp]), TWINS_WB)}}
             yield {'k': 'wb', 'h': h, 'w': w, 'large': True, 'form': {
                 't': 'fn', 'fn': 'isnumber', 'args': [draw(rng, shp, TWINS_WB)]}}
+    # (e) hostile FORMULA TEXT in array formulas: percent operator, and text literals holding percent signs, format
+    # directives, braces, doubled quotes, backslashes, separators, very long text — single-cell and multi-cell
+    # targets, target first / members first, in memory and through a file
+    texts = ['%', '50%', '%s', '%d', '%(x)s', '%%', '100%s%d', '{}', '{0}', '{a', 'b}', '={1,2}', 'a"b', '""', "it's",
+             'a\\b', '\\n', 'x,y', 'p;q', 'CSE_INDEX(1,1,1,1)', ',1,1,3,3)', 'é%ü', 'x' * 300, ('%s{}"' * 60)]
+    n = 0
+    for txt in texts:
+        lit = core.enc_text(txt)
+        for (h, w), shp in (((1, 1), (1, 3)), ((1, 3), (1, 3)), ((3, 2), (3, 1)), ((2, 2), None)):
+            n += 1
+            c = {'k': 'wb', 'h': h, 'w': w, 'hostile': True,
+                 'form': {'t': 'op', 'op': rng.choice(['BitAnd', 'BitAnd', 'Eq', 'Lt']), 'L': draw(rng, shp or (2, 2), NOBLANK)
+                          if shp else draw(rng, None, NOBLANK), 'R': lit, 'rlit': 'text'}}
+            if n % 2:
+                c['mf'] = True
+            if n % 5 == 0:
+                c['file'] = True
+            yield c
+        yield {'k': 'op', 'op': 'BitAnd', 'L': draw(rng, (2, 2), NOBLANK), 'R': lit, 'rlit': 'text', 'mode': 'range'}
+    for (h, w), shp in (((1, 1), (1, 3)), ((1, 3), (1, 3)), ((3, 2), (3, 1)), ((4, 4), (2, 2)), ((2, 3), (1, 1))):
+        for pct, op in (('n:1/2', 'Mult'), ('n:1/4', 'Add'), ('n:2/1', 'Div'), ('n:1/1', 'Eq')):
+            yield {'k': 'wb', 'h': h, 'w': w, 'hostile': True, 'mf': bool(rng.random() < 0.5),
+                   'form': {'t': 'op', 'op': op, 'L': draw(rng, shp, NOBLANK), 'R': pct, 'rlit': 'pct'}}
+        yield {'k': 'wb', 'h': h, 'w': w, 'hostile': True, 'form': {'t': 'op', 'op': 'Pct', 'L': draw(rng, shp, NOBLANK),
+                                                                    'R': 'n:100/1'}}
+        yield {'k': 'wb', 'h': h, 'w': w, 'hostile': True, 'file': True,
+               'form': {'t': 'op', 'op': 'Pct', 'L': draw(rng, shp, NOBLANK), 'R': 'n:100/1'}}
     # (c) nested evaluation contexts: the operands are reached through chains of 0..3 uncomputed formula cells
     # (in-memory workbook, no stored values), optionally after set_value on the deepest input, optionally with an
     # operand block that is itself the target of an (identity) array formula; result shape ≠ target shape
@@ -707,6 +739,8 @@ def governed(c):
 def bucket(c):
     form = form_of(c)
     if c['k'] == 'wb':
+        if c.get('hostile'):
+            return 'wb:hostile-text'
         if c.get('large'):
             return 'wb:large'
         if 'chain' in c:
